@@ -278,11 +278,9 @@ def r11_3(ck):
             "mother's processes, topology and flow are made inside the "
             'daughters loop')
     f = ck.fn('Store.divide', 'core.store')
-    loop = None
-    for n in A.walk_no_nested(f.node):
-        if isinstance(n, ast.For) and 'daughters' in A.unparse(n.iter):
-            loop = n
-            break
+    from .roles import loops_over_field
+    dl = loops_over_field(f.node, 'daughters')
+    loop = dl[0] if dl else None
     ck.require(loop is not None, 'R11.3', f, f.node.name,
                'divide loops over the listed daughters', None)
     if loop is None:
@@ -373,8 +371,9 @@ def r11_4(ck):
                    'state is installed (completed by schema defaults)',
                    None, s)
     # daughters zipped with the divided states in order
-    for n in A.walk_no_nested(f.node):
-        if isinstance(n, ast.For) and 'daughters' in A.unparse(n.iter):
+    from .roles import loops_over_field, spec_field
+    for n in loops_over_field(f.node, 'daughters'):
+        if True:
             ok = isinstance(n.iter, ast.Call) and A.call_name(n.iter) == \
                 'zip' and len(n.iter.args) == 2
             ck.require(ok, 'R11.4', f, n,
@@ -382,8 +381,8 @@ def r11_4(ck):
                        'state', None, n)
             break
     dv = [c for c in A.calls_in(f.node, 'divide_value')]
-    ok = bool(dv) and "self.inner[mother]" in A.unparse(dv[0]) or (
-        bool(dv) and 'mother' in A.unparse(dv[0]))
+    ok = bool(dv) and spec_field(f.node, A.call_receiver(dv[0]), 'mother',
+                                 dv[0])
     ck.require(ok, 'R11.4', f, dv[0] if dv else f.node.name,
                "the state divided is the mother's subtree", None)
 
@@ -402,8 +401,14 @@ def r11_5_6(ck):
     ck.require(bool(rec), 'R11.5', f, f.node.name,
                'divide_value recurses into the children', None)
     dtest = None
+    # the local that holds the node's own divider
+    dn = 'divider'
+    for nm, ds in local_defs(f.node).items():
+        if any(isinstance(d.value, ast.Call) and A.call_name(d.value) ==
+               '_get_divider' for d in ds):
+            dn = nm
     for n in A.walk_no_nested(f.node):
-        if isinstance(n, ast.If) and A.unparse(n.test) == 'divider' and \
+        if isinstance(n, ast.If) and A.unparse(n.test) == dn and \
                 n._parent is f.node:
             dtest = n
     ok = dtest is not None and isinstance(dtest.test, ast.Name)
@@ -429,13 +434,13 @@ def r11_5_6(ck):
                                         for b in dtest.body):
                 v = r.value
                 ok = isinstance(v, ast.Call) and A.is_name(
-                    v.func, 'divider') and A.unparse(
+                    v.func, dn) and A.unparse(
                     A.arg_of(v, 0)) == 'self.get_value()'
                 ck.require(ok, 'R11.5', f, r,
                            'the divider is applied to the whole subtree '
                            'value', 'the own divider is not applied to '
                            'self.get_value()', r)
-        gd = [d for d in local_defs(f.node).get('divider', [])]
+        gd = [d for d in local_defs(f.node).get(dn, [])]
         ok = bool(gd) and isinstance(gd[0].value, ast.Call) and A.call_name(
             gd[0].value) == '_get_divider'
         ck.require(ok, 'R11.5', f, gd[0].stmt if gd else 'divider',
@@ -477,6 +482,9 @@ def r11_7(ck):
     c08.r08_8(ck, rule='R11.7')
 
 
+from .c07 import _PV  # noqa: E402
+
+
 def r11_8(ck):
     ck.rule('R11.8', 'a divider that declares a topology is given the '
             'values at the paths it names, resolved from the divided node: '
@@ -487,7 +495,7 @@ def r11_8(ck):
     n = 0
     for c in A.calls_in(f.node, ('get_path', 'outer_path')):
         a0 = A.arg_of(c, 0)
-        if a0 is None or 'path' not in A.names_in(a0):
+        if a0 is None or _PV(f) not in A.names_in(a0):
             continue
         n += 1
         ck.require(A.is_name(A.call_receiver(c), 'self'), 'R11.8', f, c,
@@ -502,7 +510,10 @@ def r11_8(ck):
     from ..loader import enclosing_stmt
     ok = False
     for c in A.calls_in(dv.node):
-        if not (isinstance(c.func, ast.Name) and c.func.id == 'divider'):
+        if not (isinstance(c.func, ast.Name) and any(
+                isinstance(d.value, ast.Call) and A.call_name(d.value) ==
+                '_get_divider'
+                for d in local_defs(dv.node).get(c.func.id, []))):
             continue
         a0 = A.arg_of(c, 0)
         a0 = expand(dv.node, a0, enclosing_stmt(c)) if a0 is not None \
